@@ -65,6 +65,9 @@ pub enum C13 {
     },
     /// raw `write_all` history on one cursor kind against the bounded-buffer model
     Raw { sink: Sink, cap: u32, writes: Vec<u32> },
+    /// a long stream through ONE io adapter: `count` byte strings of `chunk` bytes into a device that accepts everything
+    /// (at most `piece` bytes per call, 0 = no bound) and only counts -- cumulative counters beyond 2^32 bytes
+    Stream { chunk: u32, count: u32, piece: u32 },
 }
 
 #[derive(Debug)]
@@ -750,6 +753,62 @@ fn run_encode(values: &[ValSpec], only_sink: Option<Sink>, only_cap: Option<u32>
     Ok(())
 }
 
+/// A device with unlimited room that counts what it is given and keeps nothing.
+struct CountingDevice {
+    taken: u64,
+    piece: usize,
+}
+
+impl std::io::Write for CountingDevice {
+    fn write(&mut self, buf: &[u8]) -> std::io::Result<usize> {
+        let n = if self.piece == 0 { buf.len() } else { buf.len().min(self.piece) };
+        self.taken += n as u64;
+        Ok(n)
+    }
+    fn flush(&mut self) -> std::io::Result<()> {
+        Ok(())
+    }
+}
+
+fn run_stream(chunk: usize, count: u32, piece: usize, obs: &Rc<RefCell<Obs>>) -> Result<(), Violation> {
+    let body = vec![0x42u8; chunk];
+    let item_len = head_len(chunk as u64) + chunk as u64;
+    let mut enc = minicbor::Encoder::new(Writer::new(CountingDevice { taken: 0, piece }));
+    let mut expected = 0u64;
+    for i in 0..count {
+        obs.borrow_mut().event(26, i as u64);
+        match enc.bytes(&body) {
+            Ok(_) => {}
+            Err(e) => fail!(
+                "fit_iff",
+                "io_writer stream: item #{i} ({chunk} bytes) was refused ({}) after {} bytes although the device accepts everything",
+                if e.is_write() { "write error" } else { "other error" },
+                enc.writer().get_ref().taken
+            ),
+        }
+        expected += item_len;
+        let taken = enc.writer().get_ref().taken;
+        if taken != expected {
+            fail!("bytes_equal", "io_writer stream: after item #{i} the device has been given {taken} bytes, the encodings so far have {expected}");
+        }
+    }
+    if expected > u32::MAX as u64 {
+        obs.borrow_mut().probe(pb::stream_beyond_4gib);
+    }
+    Ok(())
+}
+
+/// Length of a CBOR head with argument `n`.
+fn head_len(n: u64) -> u64 {
+    match n {
+        0..=23 => 1,
+        24..=0xff => 2,
+        0x100..=0xffff => 3,
+        0x1_0000..=0xffff_ffff => 5,
+        _ => 9,
+    }
+}
+
 fn run_raw(sink: Sink, cap: usize, writes: &[u32], obs: &Rc<RefCell<Obs>>) -> Result<(), Violation> {
     // model: pos += n iff pos + n <= cap; bytes below pos are exactly what was accepted
     let k = sink.name();
@@ -867,6 +926,7 @@ impl Scenario for C13 {
                 .set("sink", sink.map(|s| s.name()))
                 .set("cap", *cap)
                 .set("io_seed", *io_seed),
+            C13::Stream { chunk, count, piece } => Json::obj().set("kind", "stream").set("chunk", *chunk).set("count", *count).set("piece", *piece),
             C13::Raw { sink, cap, writes } => {
                 Json::obj().set("kind", "raw").set("sink", sink.name()).set("cap", *cap).set("writes", Json::Arr(writes.iter().map(|w| Json::from(*w)).collect()))
             }
@@ -879,6 +939,11 @@ impl Scenario for C13 {
                 sink: j.get("sink").and_then(|s| s.as_str()).and_then(Sink::parse),
                 cap: j.get("cap").and_then(|c| c.as_u64()).map(|c| c as u32),
                 io_seed: j.get("io_seed").and_then(|c| c.as_u64()).unwrap_or(0),
+            }),
+            Some("stream") => Ok(C13::Stream {
+                chunk: j.get("chunk").and_then(|c| c.as_u64()).ok_or("chunk")? as u32,
+                count: j.get("count").and_then(|c| c.as_u64()).ok_or("count")? as u32,
+                piece: j.get("piece").and_then(|c| c.as_u64()).unwrap_or(0) as u32,
             }),
             Some("raw") => Ok(C13::Raw {
                 sink: j.get("sink").and_then(|s| s.as_str()).and_then(Sink::parse).ok_or("sink")?,
@@ -894,6 +959,7 @@ impl Scenario for C13 {
             C13::Encode { values, sink, cap, io_seed } => run_encode(values, *sink, *cap, *io_seed, &shared)
                 .map_err(|v| v.key(format!("types={}", values.iter().map(|v| v.ty.name()).collect::<Vec<_>>().join("+")))),
             C13::Raw { sink, cap, writes } => run_raw(*sink, *cap as usize, writes, &shared).map_err(|v| v.key(format!("raw sink={}", sink.name()))),
+            C13::Stream { chunk, count, piece } => run_stream(*chunk as usize, *count, *piece as usize, &shared).map_err(|v| v.key("stream".to_string())),
         };
         *obs = shared.replace(Obs::new());
         r
@@ -939,6 +1005,15 @@ impl Scenario for C13 {
                     out.push(C13::Encode { values: values.clone(), sink: *sink, cap: *cap, io_seed: 0 });
                 }
             }
+            C13::Stream { chunk, count, piece } => {
+                if *count > 1 {
+                    out.push(C13::Stream { chunk: *chunk, count: count / 2, piece: *piece });
+                    out.push(C13::Stream { chunk: *chunk, count: count - 1, piece: *piece });
+                }
+                if *piece != 0 {
+                    out.push(C13::Stream { chunk: *chunk, count: *count, piece: 0 });
+                }
+            }
             C13::Raw { sink, cap, writes } => {
                 crate::c15::shrink_vec(writes, |w| out.push(C13::Raw { sink: *sink, cap: *cap, writes: w }));
                 for (i, w) in writes.iter().enumerate() {
@@ -975,6 +1050,10 @@ impl Property for P13 {
                 }
             }
         }
+        // more than 4 GiB through one io adapter (the device only counts): cumulative 32-bit byte counters
+        out.push(C13::Stream { chunk: 32 << 20, count: 130, piece: 0 });
+        out.push(C13::Stream { chunk: (1 << 20) + 1, count: 4100, piece: 65_536 });
+        out.push(C13::Stream { chunk: 1000, count: 70_000, piece: 0 });
         // one fixed long history on one Encoder (300 small integers): counters per call on the encoder
         out.push(C13::Encode { values: (0..300u64).map(|i| ValSpec { ty: if i % 2 == 0 { Ty::U16 } else { Ty::Str }, size: (i % 3) as u32, seed: i }).collect(), sink: None, cap: None, io_seed: 5 });
         // raw histories: every (cap, single write length 0..=cap+1) and every pair, for small caps
@@ -1044,7 +1123,7 @@ impl Property for P13 {
     }
 
     fn probes() -> Vec<usize> {
-        vec![pb::exact_fit_sink, pb::one_short_sink, pb::empty_sink_cap0, pb::internal_write_boundary_eq_capacity]
+        vec![pb::exact_fit_sink, pb::one_short_sink, pb::empty_sink_cap0, pb::internal_write_boundary_eq_capacity, pb::stream_beyond_4gib]
     }
 
     fn rule() -> &'static str {
